@@ -45,12 +45,17 @@ for l in open(results):
         ctl.append(f"{name}: silent under {n}/20 checks" + (f", **{bad} alarms**" if bad else ""))
 mut = "\n".join(mrows) + "\n\nControls: " + "; ".join(ctl) + "."
 # seeded
-srows = ["| seeded change | code site | what it needs to manifest | checks that report it (quick) | first-round outcome |", "|---|---|---|---|---|"]
+srows = ["| seeded change | code site | what it needs to manifest | checks that report it (quick) | outcome when first run |", "|---|---|---|---|---|"]
 for d in sorted(glob.glob("/verif/seeded/C*")):
     m = json.load(open(f"{d}/meta.json"))
     name = os.path.basename(d)
     detected = "; ".join(f"{k}: {v.split(':',1)[1].strip() if ':' in v else v}"[:150] for k, v in m.get("detected_by", {}).items())
-    first = "missed at first, check strengthened" if any("only after" in v or "first version" in v for v in m.get("detected_by", {}).values()) else "detected as built"
+    if "as_built" in m:
+        first = "as built: " + ", ".join(f"{k} {v.split(' ')[0].lower()}" for k, v in m["as_built"].items()) + "; reported after the extension"
+    elif any("only after" in v or "first version" in v for v in m.get("detected_by", {}).values()):
+        first = "missed at first, alphabet/grid extended"
+    else:
+        first = "reported as built"
     srows.append(f"| {name} | {m['site'][:140]} | {m['needs'][:200]} | {detected} | {first} |")
 seed = "\n".join(srows)
 s = open("/verif/DESIGN.md").read()
